@@ -213,14 +213,11 @@ func diffCase(c *check.Ctx, cs *core.Case, prop string) {
 	// three times longer guard
 	again := 0
 	if r.symptom == "hang" {
-		old := core.HangGuard
-		core.HangGuard = 3 * old
 		for i := 0; i < 2; i++ {
 			if r2 := diffOnce(cs, nil); r2.symptom == "hang" {
 				again++
 			}
 		}
-		core.HangGuard = old
 	} else {
 		for i := 0; i < 4 && again < 2; i++ {
 			if r2 := diffOnce(cs, nil); r2.symptom != "" {
